@@ -767,6 +767,43 @@ def _reginv_violations(wn):
                 exists = (uname in links) if utype in ("Pipe", "Pump", "Valve") else (uname in nodes) if utype in ("Junction", "Tank", "Reservoir") else (uname in wn.source_name_list) if utype == "Source" else True
                 if not exists:
                     bad.append("%s usage of %r mentions the non-existing %s %r" % (regname, key, utype, uname))
+    # referential integrity: whatever an existing element refers to exists, and the usage record of the referred object names the element
+    pats, curs = dict(wn.patterns()), dict(wn.curves())
+    pusage = {k: set(v) for k, v in wn._pattern_reg.usage()}
+    cusage = {k: set(v) for k, v in wn._curve_reg.usage()}
+    nusage = {k: set(v) for k, v in wn._node_reg.usage()}
+
+    def refers(kind, who, table, usage, ref, record):
+        if ref is None or ref == "":
+            return
+        if kind == "pattern" and ref not in table and ref == wn.options.hydraulic.pattern:
+            return            # the default pattern name of a model without such a pattern means "constant" (documented)
+        if ref not in table:
+            bad.append("%s %s refers to the removed %s %r" % (who[1], who[0], kind, ref))
+        elif len(table[ref]) > 0 if kind == "pattern" else True:
+            if record not in usage.get(ref, set()):
+                bad.append("%s %r is used by %s %s but its usage record does not say so (it could be removed)" % (kind, ref, who[1], who[0]))
+    for nn, n in nodes.items():
+        t = type(n).__name__
+        if t == "Junction":
+            for d in n.demand_timeseries_list:
+                refers("pattern", (nn, t), pats, pusage, d.pattern_name, (nn, "Junction"))
+        elif t == "Reservoir":
+            refers("pattern", (nn, t), pats, pusage, n.head_pattern_name, (nn, "Reservoir"))
+        elif t == "Tank":
+            refers("curve", (nn, t), curs, cusage, n.vol_curve_name, (nn, "Tank"))
+    for ln, l in links.items():
+        t = type(l).__name__
+        if t in ("HeadPump", "PowerPump"):
+            refers("pattern", (ln, t), pats, pusage, l.speed_pattern_name, (ln, "Pump"))
+        if t == "HeadPump":
+            refers("curve", (ln, t), curs, cusage, l.pump_curve_name, (ln, "Pump"))
+    for sn, src in wn.sources():
+        refers("pattern", (sn, "Source"), pats, pusage, src.strength_timeseries.pattern_name, (sn, "Source"))
+        if src.node_name not in nodes:
+            bad.append("source %s sits on the removed node %r" % (sn, src.node_name))
+        elif (sn, "Source") not in nusage.get(src.node_name, set()):
+            bad.append("node %r carries source %s but its usage record does not say so (it could be removed)" % (src.node_name, sn))
     try:
         list(wn.curves())
         _ = [wn.get_curve(c) for c in wn._curve_reg.pump_curve_names]
@@ -895,7 +932,8 @@ def _edit_histories(shard, nshards):
         return dict(evaluations=evals, distinct_nontrivial=len(distinct), failures=failures[:10], samples=samples, exhaustive=False,
                     scope="shard %d/%d: %d random edit histories (3-10 operations: add junction/tank/pipe/pump/valve/source/control, self-loop pipe, remove link/node/curve/"
                           "pattern/source with and without controls, reverse_link, split_pipe); after every operation all views are compared (name lists, counts, typed "
-                          "iterators, link end nodes, get_links_for_node, to_graph, usage records); a refused removal must leave to_dict unchanged" % (shard, nshards, N))
+                          "iterators, link end nodes, get_links_for_node, to_graph, usage records in both directions: every record names an existing user, every reference of an existing "
+                          "element points at an existing pattern / curve / node whose record names it); a refused removal must leave to_dict unchanged" % (shard, nshards, N))
     return run
 
 
